@@ -16,8 +16,16 @@
 //!   hangul masks <spec>                         -> the plan's mask_array (4 numbers)
 //!   hangul font <id> <spec>                     -> ok        (registers the built font for `shape <id> …`)
 //!   hangul fonthex <spec>                       -> hex of the built sfnt
+//!   hangul fontx <newid> <baseid> <extras>      -> ok | reject   (registers a copy of the registered font <baseid> with
+//!                  extra sfnt tables added / replaced verbatim; extras = `-` | TAG:hex[,TAG:hex...], TAG = 4 ascii chars)
+//!   hangul plan <env> <dir l|r|t|b> <script|-> <cat>  -> <shaper> <apply_morx 0|1>
+//!                  the shaper and the morx decision of `ShapePlan::new` on a minimal font that has, besides cmap/head/
+//!                  hhea/hmtx/maxp, the (empty) tables named by the letters of <env> ⊆ "SMKPD" (S = GSUB, M = morx,
+//!                  K = kern, P = GPOS, D = GDEF; `-` = none).  <cat> (name of the shaper `hb_ot_shape_complex_categorize`
+//!                  gives for the script, asked beforehand through `shaper`) is for the model only and ignored here.
 use rustybuzz::verif::hangul as h;
-use rustybuzz::{BufferFlags, Face};
+use super::util::hex_bytes;
+use rustybuzz::{BufferFlags, Direction, Face, Script, ShapePlan};
 use std::cell::RefCell;
 use std::collections::HashMap;
 
@@ -201,6 +209,88 @@ pub fn build_font(items: &[(u32, u32, bool)]) -> Option<Vec<u8>> {
     Some(out)
 }
 
+/// A copy of the sfnt `base` with the tables of `extras` added (or replacing a table of the same tag); the table
+/// directory is written sorted by tag.  None when `base` is not a plain sfnt.
+pub fn add_tables(base: &[u8], extras: &[([u8; 4], Vec<u8>)]) -> Option<Vec<u8>> {
+    let rd16 = |o: usize| -> Option<usize> {
+        Some(u16::from_be_bytes([*base.get(o)?, *base.get(o + 1)?]) as usize)
+    };
+    let rd32 = |o: usize| -> Option<usize> {
+        Some(u32::from_be_bytes([*base.get(o)?, *base.get(o + 1)?, *base.get(o + 2)?, *base.get(o + 3)?]) as usize)
+    };
+    let n = rd16(4)?;
+    let mut tables: Vec<([u8; 4], Vec<u8>)> = vec![];
+    for i in 0..n {
+        let r = 12 + 16 * i;
+        let tag = [*base.get(r)?, *base.get(r + 1)?, *base.get(r + 2)?, *base.get(r + 3)?];
+        let (off, len) = (rd32(r + 8)?, rd32(r + 12)?);
+        if extras.iter().any(|e| e.0 == tag) {
+            continue;
+        }
+        tables.push((tag, base.get(off..off.checked_add(len)?)?.to_vec()));
+    }
+    for e in extras {
+        tables.push((e.0, e.1.clone()));
+    }
+    tables.sort_by(|a, b| a.0.cmp(&b.0));
+    let n = tables.len() as u16;
+    let mut out = vec![];
+    out.extend_from_slice(base.get(0..4)?);
+    be16(&mut out, n);
+    let es = 15 - (n.max(1)).leading_zeros() as u16;
+    be16(&mut out, 16 << es);
+    be16(&mut out, es);
+    be16(&mut out, n * 16 - (16 << es));
+    let mut off = 12 + 16 * n as u32;
+    let mut body = vec![];
+    for (tag, data) in tables.iter_mut() {
+        out.extend_from_slice(tag);
+        be32(&mut out, 0);
+        be32(&mut out, off);
+        be32(&mut out, data.len() as u32);
+        while data.len() % 4 != 0 {
+            data.push(0);
+        }
+        off += data.len() as u32;
+        body.extend_from_slice(data);
+    }
+    out.extend_from_slice(&body);
+    Some(out)
+}
+
+fn parse_extras(s: &str) -> Option<Vec<([u8; 4], Vec<u8>)>> {
+    let mut v = vec![];
+    if s == "-" {
+        return Some(v);
+    }
+    for it in s.split(',') {
+        let (t, h) = it.split_once(':')?;
+        let t = t.as_bytes();
+        if t.len() != 4 {
+            return None;
+        }
+        v.push(([t[0], t[1], t[2], t[3]], hex_bytes(h)?));
+    }
+    Some(v)
+}
+
+/// the smallest well-formed table of each kind (`hangul plan`)
+fn empty_table(letter: char) -> Option<([u8; 4], Vec<u8>)> {
+    // GSUB / GPOS 1.0: three list offsets, each list = a zero count
+    let layout: Vec<u8> = vec![0, 1, 0, 0, 0, 10, 0, 12, 0, 14, 0, 0, 0, 0, 0, 0];
+    Some(match letter {
+        'S' => (*b"GSUB", layout),
+        'P' => (*b"GPOS", layout),
+        // version 2, one chain (default flags 0, length 16) without features and subtables
+        'M' => (*b"morx", vec![0, 2, 0, 0, 0, 0, 0, 1, 0, 0, 0, 0, 0, 0, 0, 16, 0, 0, 0, 0, 0, 0, 0, 0]),
+        // version 0, no subtables
+        'K' => (*b"kern", vec![0, 0, 0, 0]),
+        // version 1.0, four null offsets
+        'D' => (*b"GDEF", vec![0, 1, 0, 0, 0, 0, 0, 0, 0, 0, 0, 0]),
+        _ => return None,
+    })
+}
+
 fn font_for(spec: &str) -> Option<&'static [u8]> {
     if let Some(d) = FONTS.with(|f| f.borrow().get(spec).copied()) {
         return Some(d);
@@ -311,6 +401,66 @@ pub fn handle(toks: &[&str], st: &mut crate::State) -> Option<String> {
             st.fonts.insert(toks.get(1)?.to_string(), data);
             st.font_index.insert(toks.get(1)?.to_string(), 0);
             Some(if ok { "ok".into() } else { "reject".into() })
+        }
+        "fontx" => {
+            let base = *st.fonts.get(*toks.get(2)?)?;
+            let extras = parse_extras(toks.get(3)?)?;
+            let data = add_tables(base, &extras)?;
+            let data: &'static [u8] = Box::leak(data.into_boxed_slice());
+            let ok = Face::from_slice(data, 0).is_some();
+            st.fonts.insert(toks.get(1)?.to_string(), data);
+            st.font_index.insert(toks.get(1)?.to_string(), 0);
+            Some(if ok { "ok".into() } else { "reject".into() })
+        }
+        "plan" => {
+            let env = *toks.get(1)?;
+            let mut extras = vec![];
+            if env != "-" {
+                for c in env.chars() {
+                    extras.push(empty_table(c)?);
+                }
+            }
+            let dir = match *toks.get(2)? {
+                "l" => Direction::LeftToRight,
+                "r" => Direction::RightToLeft,
+                "t" => Direction::TopToBottom,
+                "b" => Direction::BottomToTop,
+                _ => return None,
+            };
+            let script = match *toks.get(3)? {
+                "-" => None,
+                s => {
+                    let b = s.as_bytes();
+                    if b.len() != 4 {
+                        return None;
+                    }
+                    Some(Script::from_iso15924_tag(rustybuzz::ttf_parser::Tag::from_bytes(&[
+                        b[0], b[1], b[2], b[3],
+                    ]))?)
+                }
+            };
+            let base = build_font(&[(0x41, 0x5A, false)])?;
+            let data = add_tables(&base, &extras)?;
+            let face = Face::from_slice(&data, 0)?;
+            // every requested table must have been accepted by the parser, otherwise the case means something else
+            let t = face.tables();
+            for c in env.chars() {
+                let present = match c {
+                    'S' => t.gsub.is_some(),
+                    'P' => t.gpos.is_some(),
+                    'M' => t.morx.is_some(),
+                    'K' => t.kern.is_some(),
+                    'D' => t.gdef.is_some(),
+                    _ => true,
+                };
+                if !present {
+                    return Some(format!("table-rejected {}", c));
+                }
+            }
+            let plan = ShapePlan::new(&face, dir, script, None, &[]);
+            let (name, _, _) = rustybuzz::verif::plan::plan_scripts(&plan);
+            let applies = rustybuzz::verif::plan::plan_applies(&plan);
+            Some(format!("{} {}", name, applies[4] as u8))
         }
         "fonthex" => {
             let data = build_font(&parse_spec(toks.get(1)?)?)?;
